@@ -85,8 +85,14 @@ def check_view(A, view, ids, rows, idmap, probe, with_shuffle, light=False):
   cl = [(c, A.rows(d.all_examples()['x'])) for c, d in view.clients()]
   if sorted(cl) != sorted((idmap(i), rows(i)) for i in ids):
     return 'clients() content %r' % (cl,)
-  if [(c, A.rows(d.all_examples()['x'])) for c, d in view.clients()] != cl:
-    return 'clients() iteration order not deterministic'
+  adapters.SET_ORDER[0] = 1        # "deterministic" includes another process: hash sets iterate in another order there
+  try:
+    again = [(c, A.rows(d.all_examples()['x'])) for c, d in view.clients()]
+    ids_again = list(view.client_ids())
+  finally:
+    adapters.SET_ORDER[0] = 0
+  if again != cl or ids_again != got:
+    return 'clients() / client_ids() iteration order not deterministic'
   # batch-level preprocessors run when batches are produced
   for c, d in (view.clients() if not light else ()):
     flat = [v for b in d.batch(batch_size=2) for v in A.rows(b['x'])]
@@ -129,9 +135,10 @@ def check_view(A, view, ids, rows, idmap, probe, with_shuffle, light=False):
   if with_shuffle and ids:
     if A is M:
       np_lite.set_tape(None)
-    seen = [c for c, _ in itertools.islice(view.shuffled_clients(buffer_size=2, seed=1), 2 * len(ids))]
-    if sorted(seen[:len(ids)]) != sorted(exp_ids) or sorted(seen[len(ids):]) != sorted(exp_ids):
-      return 'shuffled pass %r does not visit every client of the view exactly once' % (seen,)
+    for bs in sorted({2, len(ids) + 1, len(ids) + 2}):      # buffers shorter than, equal to and longer than the view
+      seen = [c for c, _ in itertools.islice(view.shuffled_clients(buffer_size=bs, seed=1), 2 * len(ids))]
+      if sorted(seen[:len(ids)]) != sorted(exp_ids) or sorted(seen[len(ids):]) != sorted(exp_ids):
+        return 'shuffled pass %r (buffer_size=%d) does not visit every client of the view exactly once' % (seen, bs)
   return None
 
 
@@ -175,7 +182,8 @@ PATTERNS = {0: 'slice', 1: 'preprocess_client', 2: 'preprocess_batch', 3: '-'}
 def views1(b0: bool, b1: bool, b2: bool, s: Optional[int], e: Optional[int], probe: int) -> bool:
   """
   At most one slice among the two operations (the other is a preprocessor or absent): subset, bounds and probe symbolic.
-  pre: True
+  Bounds are >= 0: bytes have a least element b'' (the only falsy bytes value), represented by 0 (the only falsy int).
+  pre: (s is None or s >= 0) and (e is None or e >= 0)
   post: __return__
   """
   impl, k1, k2 = _CFG[:3]
@@ -184,8 +192,8 @@ def views1(b0: bool, b1: bool, b2: bool, s: Optional[int], e: Optional[int], pro
 
 def views2(s1: Optional[int], e1: Optional[int], s2: Optional[int], e2: Optional[int]) -> bool:
   """
-  Two nested slices: all four bounds symbolic (subset and probe fixed by the configuration).
-  pre: True
+  Two nested slices: all four bounds symbolic (subset and probe fixed by the configuration).  0 stands for b'' (see views1).
+  pre: (s1 is None or s1 >= 0) and (e1 is None or e1 >= 0) and (s2 is None or s2 >= 0) and (e2 is None or e2 >= 0)
   post: __return__
   """
   impl, _, _, bits, probe = _CFG
@@ -194,7 +202,7 @@ def views2(s1: Optional[int], e1: Optional[int], s2: Optional[int], e2: Optional
 
 def views_reach(b0: bool, b1: bool, b2: bool, s: Optional[int], e: Optional[int], probe: int) -> bool:
   """
-  pre: True
+  pre: (s is None or s >= 0) and (e is None or e >= 0)
   post: not __return__
   """
   impl, k1, k2 = _CFG[:3]
